@@ -442,7 +442,22 @@ func TestC34_RaceWorkload(t *testing.T) {
 			// let timers (connection manager 1 s, lighthouse 1 s) interleave with late traffic, then stop everything
 			time.Sleep(time.Duration(rapid.IntRange(0, 300).Draw(rt, "tailMs")) * time.Millisecond)
 			net.dropAll.Store(true)
-			time.Sleep(50 * time.Millisecond) // let datagrams already queued at the nodes be processed
+			// let datagrams already queued at the nodes be processed: wait until every receive queue
+			// has been empty for two polls 100 ms apart (bounded; a busy machine needs longer than an idle one)
+			for i, quiet := 0, 0; i < 100 && quiet < 2; i++ {
+				time.Sleep(100 * time.Millisecond)
+				empty := true
+				for _, n := range nodes {
+					if len(n.ctrl.f.outside.(*udp.TesterConn).RxPackets) > 0 {
+						empty = false
+					}
+				}
+				if empty {
+					quiet++
+				} else {
+					quiet = 0
+				}
+			}
 			stopped := make(chan struct{})
 			go func() {
 				var sw sync.WaitGroup
